@@ -57,6 +57,7 @@ class StmtMixin:
 
     def exec_stmt(self, s, st):
         self.cur_line = getattr(s, "lineno", self.cur_line)
+        self._idx_cache = {}
         m = getattr(self, "st_" + type(s).__name__, None)
         if m is None:
             raise Unsupported(f"statement {type(s).__name__} (line {self.cur_line})")
@@ -225,6 +226,10 @@ class StmtMixin:
         ks, vs = self.tenv.sort(mpt.args[0]), self.tenv.sort(mpt.args[1])
         dom = smt.ConstArray(smt.ArraySort(ks, "Bool"), smt.FALSE)
         val = self.ctx.fresh_const("mapval0", smt.ArraySort(ks, vs))
+        if mpt.name == "default" and mpt.args[1].kind == "set":
+            # defaultdict(set): every key not written yet reads as the empty set
+            es = self.tenv.sort(mpt.args[1].args[0])
+            val = smt.ConstArray(smt.ArraySort(ks, vs), smt.ConstArray(smt.ArraySort(es, "Bool"), smt.FALSE))
         return self.ops.mk_map(mpt, dom, val)
 
     def unpack(self, v, n, st):
@@ -285,7 +290,7 @@ class StmtMixin:
             raise Unsupported(f"attribute store on {base!r}")
         if isinstance(place, ast.Subscript):
             base = self.eval(place.value, st)
-            idx = self.eval(place.slice, st)
+            idx = self._idx_cache[id(place.slice)] if id(place.slice) in self._idx_cache else self.eval(place.slice, st)
             if isinstance(base, View) or (isinstance(base, ObjRef) and base.cls in getattr(self.E, "view_classes", ())):
                 view = View(base.obj, base.keys + (idx,)) if isinstance(base, View) else View(base, (idx,))
                 self.call_method(view, "set", [new], {}, st, None)
@@ -447,11 +452,13 @@ class StmtMixin:
                 if tag == "#mapitems":
                     m = itv[1]
                     ks = self.set_iter(SV(ops.map_dom(m), Set(m.pt.args[0])), st, spec)
-                    return IterSpec(
+                    it = IterSpec(
                         length=ks.length,
                         elem=lambda k: (ks.elem(k), SV(smt.Select(ops.map_val(m), ks.elem(k).term), m.pt.args[1])),
                         facts=ks.facts,
                     )
+                    it.idx_name, it.elem_pt, it.key_elem = ks.idx_name, ks.elem_pt, ks.elem
+                    return it
                 if tag == "#mapvalues":
                     m = itv[1]
                     ks = self.set_iter(SV(ops.map_dom(m), Set(m.pt.args[0])), st, spec)
